@@ -518,8 +518,10 @@ func c12Refresh(c *Ctx, b *Bed, ecs bool, mode string) {
 // c12Failing: the exchange with the upstream fails (connection closed, reset, garbage) or the
 // upstream itself answers SERVFAIL / REFUSED: the locally made response obeys the same OPT rules.
 func c12Failing(c *Ctx, b *Bed, mode string) {
-	kinds := []string{"close", "rst", "garbage", "rc2", "rc5", "nx"}
-	n := c.N(60, 600)
+	// (FORMERR / NOTIMP / BADVERS-looking replies with and without an OPT record: what an upstream or
+	// middle box without EDNS0 support answers)
+	kinds := []string{"close", "rst", "garbage", "rc2", "rc5", "nx", "rc1", "rc1-opt", "rc4", "rc9", "rc1", "rc4-opt"}
+	n := c.N(72, 600)
 	parallelFor(n, 6, func() bool { return c.ViolationCount() >= 10 || !b.Proxy.Alive() }, func(i int) {
 		r := gen.New(c.Seed, "c12fail/"+mode, i)
 		kind := kinds[i%len(kinds)]
@@ -553,6 +555,20 @@ func c12Failing(c *Ctx, b *Bed, mode string) {
 			c.Ev.Count(mode+"_failing_upstream_responses_checked", 1)
 		}
 	})
+	// upstream side: whatever the upstream answered, every query it received - retries and second
+	// attempts included - carries exactly one OPT record
+	for _, ql := range b.Up["tcp"].Log() {
+		if !strings.Contains(ql.Name, fmt.Sprintf("x%d.tcp.test.", c.Seed)) || !strings.Contains(ql.Name, "-f") {
+			continue
+		}
+		nOpt, _, _, err := c12RawOPTs(ql.Raw)
+		c.Ev.Count(mode+"_failing_upstream_queries_checked", 1)
+		kind := strings.SplitN(ql.Name, "-f", 2)[0]
+		if err == nil && nOpt != 1 && !c.Seen("upstream-opt-count:failing-upstream:"+kind) {
+			c.Violation("upstream-opt-count:failing-upstream:"+kind, fmt.Sprintf("an upstream query for %s (upstream behaviour %s) carries %d OPT records, exactly one is required", ql.Name, kind, nOpt),
+				c12Probe{Listener: "-", Name: ql.Name, QueryHex: hex.EncodeToString(ql.Raw)})
+		}
+	}
 }
 
 // c12OptTTL returns the TTL field of the first OPT record of a message (0 if none).
